@@ -1212,10 +1212,13 @@ func (p *constructPlan) Execute(ctx context.Context) (*table.Table, error) {
 	}
 	// The buffered channel has capacity to accommodate twice the amount of triples stored in a single call.
 	tripChan := make(chan *triple.Triple, 2*p.bulkSize)
-	done := make(chan bool)
+	done := make(chan error)
 
 	go func() {
-		var ts []*triple.Triple
+		var (
+			ts   []*triple.Triple
+			uErr error
+		)
 		updateFunc := func(g storage.Graph, d []*triple.Triple) error {
 			gID := g.ID(ctx)
 			nTrpls := len(d)
@@ -1239,29 +1242,39 @@ func (p *constructPlan) Execute(ctx context.Context) (*table.Table, error) {
 			}
 		}
 		for elem := range tripChan {
+			if uErr != nil {
+				// Keep draining so the producer never blocks.
+				continue
+			}
 			ts = append(ts, elem)
 			if len(ts) >= p.bulkSize {
-				update(ctx, ts, p.stm.OutputGraphNames(), p.store, updateFunc)
+				uErr = update(ctx, ts, p.stm.OutputGraphNames(), p.store, updateFunc)
 				ts = []*triple.Triple{}
 			}
 		}
-		if len(ts) > 0 {
-			update(ctx, ts, p.stm.OutputGraphNames(), p.store, updateFunc)
+		if uErr == nil && len(ts) > 0 {
+			uErr = update(ctx, ts, p.stm.OutputGraphNames(), p.store, updateFunc)
 		}
-		done <- true
+		done <- uErr
 	}()
+	// fail stops the bulk writer before reporting an error found while building triples.
+	fail := func(err error) (*table.Table, error) {
+		close(tripChan)
+		<-done
+		return nil, err
+	}
 
 	for _, cc := range p.stm.ConstructClauses() {
 		for _, r := range tbl.Rows() {
 			t, err := p.processConstructClause(cc, tbl, r)
 			if err != nil {
-				return nil, err
+				return fail(err)
 			}
 			if len(cc.PredicateObjectPairs()) > 1 {
 				// We need to reify a blank node.
 				rts, bn, err := t.Reify()
 				if err != nil {
-					return nil, fmt.Errorf("triple.Reify failed to reify %v with error %v", t, err)
+					return fail(fmt.Errorf("triple.Reify failed to reify %v with error %v", t, err))
 				}
 				for _, trpl := range rts[1:] {
 					tripChan <- trpl
@@ -1269,11 +1282,11 @@ func (p *constructPlan) Execute(ctx context.Context) (*table.Table, error) {
 				for _, pop := range cc.PredicateObjectPairs()[1:] {
 					rprd, robj, err := p.processPredicateObjectPair(pop, tbl, r)
 					if err != nil {
-						return nil, err
+						return fail(err)
 					}
 					rt, err := triple.New(bn, rprd, robj)
 					if err != nil {
-						return nil, err
+						return fail(err)
 					}
 					tripChan <- rt
 				}
@@ -1284,7 +1297,9 @@ func (p *constructPlan) Execute(ctx context.Context) (*table.Table, error) {
 	}
 	close(tripChan)
 	// Wait until all triples are added to the store.
-	<-done
+	if err := <-done; err != nil {
+		return nil, err
+	}
 	return tbl, nil
 }
 
